@@ -54,8 +54,11 @@ def run(ctx):
 
     # ---- R1.1 writers ---------------------------------------------------------
     ws = sorted({f.name for f, n in eff.writers_of_field("ovni_rthread", "evlen")})
-    ctx.check(set(ws) <= EVLEN_WRITERS and len(ws) >= 4, "R1.1", "evlen:writers", OV,
-              "rthread.evlen is written by %s" % sorted(set(ws) - EVLEN_WRITERS))
+    # private static helpers of the allowed functions count as part of them
+    evlen_ok = prog.helper_closure(EVLEN_WRITERS, OV)
+    ctx.check(set(ws) <= evlen_ok and len(ws) >= 1, "R1.1", "evlen:writers", OV,
+              "rthread.evlen is written by %s, outside %s and their private helpers" %
+              (sorted(set(ws) - evlen_ok), sorted(EVLEN_WRITERS)))
     # who writes bytes of the buffer: every function of ovni.c is explored on its own
     # (no inlining) with rthread.evbuf pointing to the abstract object EVBUF
     writers = set()
@@ -68,14 +71,15 @@ def run(ctx):
                 a = args[LIBC_DEST_WRITERS[cal]]
                 if a[0] == "ptr" and a[1] == "EVBUF":
                     hits.append(cal)
-        exw = absint.Explorer(prog, effects=eff, inline=lambda n, d: False, on_call=oc, merge=True,
+        exw = absint.Explorer(prog, effects=eff, auto_inline=False, on_call=oc, merge=True,
                               loop_bound=2, max_paths=50000)
         exw.run(f, [TOP] * len(f.params), {EVBUF: PTR("EVBUF", (0,)), EVLEN: exw.sym("evlen", 0, cap - 1)})
         if hits or any(ev[0] == "store" and ev[1][0] == "EVBUF" for ev in exw.event_log):
             writers.add(f.name)
-    ctx.check(writers <= {"ovni_ev_add", "ovni_ev_add_jumbo", "write_stream_header"}, "R1.1", "evbuf:writers", OV,
-              "functions writing bytes of the event buffer: %s (expected ovni_ev_add, ovni_ev_add_jumbo and "
-              "write_stream_header)" % sorted(writers))
+    evbuf_ok = prog.helper_closure({"ovni_ev_add", "ovni_ev_add_jumbo", "write_stream_header"}, OV)
+    ctx.check(writers <= evbuf_ok, "R1.1", "evbuf:writers", OV,
+              "functions writing bytes of the event buffer: %s (expected ovni_ev_add, ovni_ev_add_jumbo, "
+              "write_stream_header and their private helpers)" % sorted(writers - evbuf_ok))
 
     rt = RtExplorer(ctx, cap)
     ex = rt.ex
@@ -207,32 +211,56 @@ def run(ctx):
     _check_write_loop(ctx, prog, eff, cap, wf)
 
     # ---- R1.5 ----------------------------------------------------------------------------------
-    allowed = {"OF[": {"ovni_flush", "add_flush_events"}, "OF]": {"ovni_flush", "add_flush_events"},
-               "OM[": {"ovni_mark_push"}, "OM]": {"ovni_mark_pop"}, "OM=": {"ovni_mark_set"}}
+    # which events does each entry point of the library create?  Every non-static function of ovni.c is
+    # interpreted with its private static helpers inlined; the MCV handed to ovni_ev_set_mcv must be a literal
+    MARKERS = {"OF[", "OF]"}
+    own = {"ovni_mark_push": {"OM["}, "ovni_mark_pop": {"OM]"}, "ovni_mark_set": {"OM="}}
+    must = dict(own)
+    must.update({"ovni_flush": MARKERS, "ovni_ev_emit": MARKERS, "ovni_ev_jumbo_emit": MARKERS})
     nsites = 0
+    created = {}
     for f in prog.fns_in(OV):
-        for i in f.all_calls_syntactic("ovni_ev_set_mcv"):
-            a = f.nodes[f.strip(f.nodes[i]["args"][1])]
+        if f.static or f.name == "ovni_ev_set_mcv":
+            continue
+        got = []
+
+        def oc(ex_, st, f_, e, cal, args, got=got):
+            if cal == "ovni_ev_set_mcv" and len(args) >= 2:
+                got.append((args[1], f_.loc(e)))
+        exm = absint.Explorer(prog, effects=eff, on_call=oc, merge=True, loop_bound=2, max_paths=50000, max_depth=3)
+        try:
+            exm.run(f, [TOP] * len(f.params), {})
+        except Exception as e_:
+            ctx.need(False, "R1.5: cannot interpret %s: %s" % (f.name, e_))
+        for v, where in got:
             nsites += 1
-            inst = "%s:set_mcv#%d" % (f.name, nsites)
-            if a["k"] != "StringLiteral":
-                ctx.fail("R1.5", inst, f.loc(i), "libovni builds an event with a non-literal MCV")
+            inst = "%s:creates:%s" % (f.name, v[1] if v[0] == "str" else "?")
+            if v[0] != "str":
+                ctx.fail("R1.5", inst + "#%d" % nsites, where, "%s builds an event whose MCV is not a literal (%s)" % (f.name, v))
                 continue
-            ctx.check(a["s"] in allowed and f.name in allowed[a["s"]], "R1.5", inst, f.loc(i),
-                      "libovni itself emits event %s from %s" % (a["s"], f.name))
-    ctx.check(nsites >= 7, "R1.5", "set_mcv:sites", OV, "only %d ovni_ev_set_mcv sites found" % nsites)
+            created.setdefault(f.name, set()).add(v[1])
+            ctx.check(v[1] in MARKERS | own.get(f.name, set()), "R1.5", inst, where,
+                      "libovni itself emits event %s from %s (only the flush markers OF[ OF], and OM[ OM] OM= from the "
+                      "three mark functions, may be created by the library)" % (v[1], f.name))
+    for fn_, want in must.items():
+        ctx.check(want <= created.get(fn_, set()), "R1.5", "%s:creates" % fn_, OV,
+                  "%s creates %s, expected at least %s" % (fn_, sorted(created.get(fn_, set())), sorted(want)))
+    ctx.check(nsites >= 7, "R1.5", "set_mcv:sites", OV, "only %d ovni_ev_set_mcv calls interpreted" % nsites)
+    mcv_ok = prog.helper_closure({"ovni_ev_set_mcv"}, OV)
     for fld in ("model", "category", "value"):
-        w = sorted({f.name for f, n in eff.writers_of_field("ovni_ev_header", fld) if f.file == OV})
-        ctx.check(w == ["ovni_ev_set_mcv"], "R1.5", "header.%s:writers" % fld, OV,
-                  "ovni_ev_header.%s is written in libovni by %s" % (fld, w))
+        w = {f.name for f, n in eff.writers_of_field("ovni_ev_header", fld) if f.file == OV}
+        ctx.check(w and w <= mcv_ok, "R1.5", "header.%s:writers" % fld, OV,
+                  "ovni_ev_header.%s is written in libovni by %s" % (fld, sorted(w)))
     # internal emitters: who calls ovni_ev_add / ovni_ev_add_jumbo inside the library
-    callers = sorted({f.name for f in prog.fns_in(OV) for i in f.all_calls_syntactic("ovni_ev_add")})
-    ctx.check(set(callers) == {"ovni_flush", "add_flush_events", "ovni_ev_emit", "ovni_mark_push",
-                                "ovni_mark_pop", "ovni_mark_set"}, "R1.5", "ovni_ev_add:callers", OV,
-              "ovni_ev_add is called by %s" % callers)
-    callers = sorted({f.name for f in prog.fns_in(OV) for i in f.all_calls_syntactic("ovni_ev_add_jumbo")})
-    ctx.check(callers == ["ovni_ev_jumbo_emit"], "R1.5", "ovni_ev_add_jumbo:callers", OV,
-              "ovni_ev_add_jumbo is called by %s" % callers)
+    add_ok = prog.helper_closure({"ovni_flush", "add_flush_events", "ovni_ev_emit", "ovni_mark_push",
+                                  "ovni_mark_pop", "ovni_mark_set", "ovni_ev_add", "ovni_ev_add_jumbo"}, OV)
+    callers = {f.name for f in prog.fns_in(OV) for i in f.all_calls_syntactic("ovni_ev_add")}
+    ctx.check(callers <= add_ok, "R1.5", "ovni_ev_add:callers", OV,
+              "ovni_ev_add is called by %s" % sorted(callers - add_ok))
+    jumbo_ok = prog.helper_closure({"ovni_ev_jumbo_emit"}, OV)
+    callers = {f.name for f in prog.fns_in(OV) for i in f.all_calls_syntactic("ovni_ev_add_jumbo")}
+    ctx.check(callers <= jumbo_ok, "R1.5", "ovni_ev_add_jumbo:callers", OV,
+              "ovni_ev_add_jumbo is called by %s" % sorted(callers - jumbo_ok))
 
     # ---- R1.6 -----------------------------------------------------------------------------------
     rec = prog.records.get("ovni_stream_header")
@@ -258,7 +286,7 @@ def run(ctx):
                   "the header is not flushed as exactly 8 bytes (flushes: %s)" %
                   [(_s(f_["size"])) for f_ in flushes])
     ti = prog.fn("ovni_thread_init", OV)
-    exi = absint.Explorer(prog, effects=eff, inline=lambda n, d: False)
+    exi = absint.Explorer(prog, effects=eff, auto_inline=False)
     outs = exi.run(ti, [INT(33)], {(RT, F("ovni_rthread", "ready")): INT(0), (RT, F("ovni_rthread", "finished")): INT(0),
                                    (RP, F("ovni_rproc", "st")): INT(prog.enum_val("ST_READY"))})
     okp = 0
@@ -313,9 +341,12 @@ def _check_write_loop(ctx, prog, eff, cap, wf, rule="R1.3"):
             cons = ((tuple(sorted(t.items())), la[0]),)
         st.events = st.events + (("note", "write", dict(k=k, fd=args[0], buf=args[1], n=args[2], cons=st.cons)),)
         return [(INT(-1), {}), (w, {}, cons)]
+    # entered through flush_evbuf(), which takes everything from the thread state: independent of the
+    # signature of the static write helper
+    fe = prog.fn("flush_evbuf", OV)
     ex = absint.Explorer(prog, effects=eff, summaries={"write": s_write2}, loop_bound=3)
     size0 = ex.sym("size0", 1, cap)
-    outs = ex.run(wf, [PTR("EVBUF", (0,)), size0], {(RT, F("ovni_rthread", "streamfd")): INT(7)})
+    outs = ex.run(fe, [], {(RT, F("ovni_rthread", "streamfd")): INT(7), EVBUF: PTR("EVBUF", (0,)), EVLEN: size0})
     rt = RtExplorer(ctx, cap)
     rt.ex = ex
     n_checked = 0
@@ -341,6 +372,8 @@ def _check_write_loop(ctx, prog, eff, cap, wf, rule="R1.3"):
             n_checked += 1
             ctx.check(not probs, rule, "write_evbuf:args:path%d" % n_checked, wf.loc(), "; ".join(probs))
         if o.kind in ("ret", "exit") and not any(d[0] == "loop-exit" for d in o.decisions) and ws:
+            ctx.check(o.store.get(EVLEN) == INT(0), rule, "flush_evbuf:resets-evlen:path%d" % n_checked, fe.loc(),
+                      "after the flush evlen is %s, not 0" % _s(o.store.get(EVLEN, TOP)))
             # real exit: everything written
             lt = absint.to_lin(total)
             ctx.check(rt.eq(o.cons, total, size0) is True, rule, "write_evbuf:exit-when-all-written:path%d" % n_checked,
@@ -349,7 +382,7 @@ def _check_write_loop(ctx, prog, eff, cap, wf, rule="R1.3"):
     ex = absint.Explorer(prog, effects=eff, summaries={"write": lambda ex_, st, args, f, e: [(INT(-1), {})]},
                          loop_bound=3)
     size0 = ex.sym("size0", 1, cap)
-    outs = ex.run(wf, [PTR("EVBUF", (0,)), size0], {(RT, F("ovni_rthread", "streamfd")): INT(7)})
+    outs = ex.run(fe, [], {(RT, F("ovni_rthread", "streamfd")): INT(7), EVBUF: PTR("EVBUF", (0,)), EVLEN: size0})
     ctx.check(outs and all(o.kind == "die" for o in outs), rule, "write_evbuf:error-dies", wf.loc(),
               "a failing write() does not abort: flushed events would be lost silently")
     ctx.check(n_checked >= 2, rule, "write_evbuf:explored", wf.loc(), "too few paths explored")
